@@ -453,7 +453,7 @@ class ExcelInPython:
             return '#NUM!'
         if num_chars < 0:
             return '#VALUE!'
-        if start_num > len(text):
+        if not text or start_num > len(text):
             return self.EmptyCell()
         
         return text[start_num - 1:start_num + num_chars - 1]
